@@ -44,6 +44,7 @@ let print_act = function
   | CAInc (x, aa, v) -> Printf.printf "act t%d ainc %s %d\n" (t x) (a aa) (int_of_z v)
   | CADec (x, aa, v) -> Printf.printf "act t%d adec %s %d\n" (t x) (a aa) (int_of_z v)
   | CALoad (x, aa, v) -> Printf.printf "act t%d aload %s %d\n" (t x) (a aa) (int_of_z v)
+  | CRead (x, r) -> Printf.printf "act t%d read %s\n" (t x) (match r with RQ -> "ql" | RF -> "fl")
   | CNotify x -> Printf.printf "act t%d notify cv\n" (t x)
   | CCvBlock x -> Printf.printf "act t%d cvblock cv\n" (t x)
   | CCvWake x -> Printf.printf "act t%d cvwake cv\n" (t x)
